@@ -96,3 +96,15 @@ Proof. dvec v; dvec w. unf25. teq; ring. Qed.
 (** ** non-vacuity *)
 Example ex_invertible : k25_det33 ROps ((2,1,0),(0,3,1),(1,0,2)) <> 0 /\ k25_detSym33 ROps ((2,3,4),(1,0,1)) <> 0.
 Proof. unf25. split; lra. Qed.
+
+(* Full-strength SymMat33 inverse lemmas, to be restored in place of invSym33_refuted / *_partial once
+   patches/C25_symmat33_inverse.diff is applied to the source (they do not hold of the current code):
+
+Lemma invSym33_is_inv33 s : k25_detSym33 ROps s <> 0 ->
+  sym_to_m33 (k25_invSym33 ROps s) = k25_inv33 ROps (sym_to_m33 s).
+Proof. dsym s. unf25. intros H. teq; field; intro Z; apply H; rewrite <- Z; ring. Qed.
+Lemma invSym33_right s : k25_detSym33 ROps s <> 0 -> mm (sym_to_m33 s) (sym_to_m33 (k25_invSym33 ROps s)) = I33.
+Proof. intros H. rewrite invSym33_is_inv33 by auto. apply inv33_right. rewrite <- detSym33_is_det33. auto. Qed.
+Lemma invSym33_left s : k25_detSym33 ROps s <> 0 -> mm (sym_to_m33 (k25_invSym33 ROps s)) (sym_to_m33 s) = I33.
+Proof. intros H. rewrite invSym33_is_inv33 by auto. apply inv33_left. rewrite <- detSym33_is_det33. auto. Qed.
+*)
